@@ -3,14 +3,16 @@
 # checks of the given properties (default: the one in meta.json), reverts /repo, prints the outcome.
 set -u
 NAME=$1; shift
+REPO=${REPO:-/repo}
+VERIF=${VERIF:-/verif}
 D=/verif/seeded/$NAME
 PIDS="$@"
 [ -z "$PIDS" ] && PIDS=$(python3 -c "import json;print(json.load(open('$D/meta.json'))['breaks_property'])")
-cd /repo
-if [ -n "$(git status --porcelain --untracked-files=no)" ]; then echo "/repo not clean"; exit 2; fi
+cd $REPO
+if [ -n "$(git status --porcelain --untracked-files=no)" ]; then echo "$REPO not clean"; exit 2; fi
 git apply "$D/patch.diff" || { echo "$NAME: patch does not apply"; exit 2; }
 for P in $PIDS; do
-  OUT=$(cd /verif && VERIF_SEED=${VERIF_SEED:-0} ./check $P quick 2>/dev/null)
+  OUT=$(cd $VERIF && VERIF_SEED=${VERIF_SEED:-0} ./check $P quick 2>/dev/null)
   RC=$?
   SIG=$(echo "$OUT" | grep -m1 "^FAIL" | sed 's/.*sig=\[\([^]]*\)\].*/\1/')
   echo "$NAME vs $P: exit=$RC ${SIG:+sig=[$SIG]}"
@@ -24,4 +26,4 @@ m["detected_by"]=d
 json.dump(m,open(f,"w"),indent=1)
 PY
 done
-git -C /repo checkout -- .
+git -C $REPO checkout -- .
